@@ -196,6 +196,16 @@ def _frozen_net(ctx, p):
     if p["via"] == "freeze":
         ctx.require(net.is_frozen is False, "is_frozen is not False before freeze()")
         net.freeze()
+    elif p["via"] == "subhypergraph_sel":
+        # selections: nodes [] / one solver-chosen label (present or absent; None is the plain route),
+        # edges None / one solver-chosen id, keep_isolates solver-chosen
+        nsel = [[], [ctx.fresh("sn")]][ctx.choose("nsel", 2)]
+        esel = [None, [ctx.fresh("se")]][ctx.choose("esel", 2)]
+        keep = ctx.flag("keep_isolates")
+        ctx.info["selection"] = {"nodes": nsel, "edges": esel, "keep_isolates": keep}
+        with warnings.catch_warnings():
+            warnings.simplefilter("ignore")
+            net = xgi.subhypergraph(net, nodes=nsel, edges=esel, keep_isolates=keep)
     else:  # the result of subhypergraph is frozen
         with warnings.catch_warnings():
             warnings.simplefilter("ignore")
@@ -382,6 +392,11 @@ def spec(tier, seed):
                     for style in ("keyword", "positional"):
                         units.append(("C18.frozen", {"cls": cls, "shape": s, "via": via, "kind": "generic", "op": m, "style": style}))
                 units.append(("C18.copy", {"cls": cls, "shape": s, "via": via}))
+            if cls != "D":
+                # subhypergraph with an explicit selection: a representative mutator of each kind
+                for o in [o for o in ("add_node", "add_edge", "add_simplex", "remove_node") if o in op_names]:
+                    units.append(("C18.frozen", {"cls": cls, "shape": s, "via": "subhypergraph_sel", "kind": "op", "op": o}))
+                units.append(("C18.copy", {"cls": cls, "shape": s, "via": "subhypergraph_sel"}))
         for fn in create_using_functions():
             if fn not in NATURAL[cls]:
                 continue  # class-mismatched create_using is rejected for other reasons
